@@ -93,10 +93,12 @@ def validation(ctx: Ctx, f: FunctionInfo) -> Tuple[Node, str, str, Dict[str, Nod
     for d in defs:
         dn = g.nodes[d]
         if isinstance(dn.ast, ast.Assign) and isinstance(dn.ast.value, (ast.Call, ast.IfExp)):
-            for c in g.calls():
-                if c.stmt is dn.ast:
-                    reads.append(c)
-    if not reads:
+            # the defining statement is the validation read, provided its value comes from a metadata read
+            org = ctx.slicer(f).origins(dn.ast.value, d)
+            if any(isinstance(c, ast.Call) and (dotted(c.func) or "").split(".")[-1] in
+                   ("refresh", "_read_metadata_file", "read_json", "_current_version_info") for c in org["calls"]):
+                reads.append(dn)
+    if len(reads) != len(defs) or not reads:
         raise AnalysisError("validation read (definition of the validated metadata) not found")
     return reads[0], cur_name, base, fields
 
